@@ -125,9 +125,12 @@ def tok_upd(upd):
     return (f"sub {len(dofs)} " + " ".join(f"{p} {tok_spec(s)}" for p, s in dofs) + f" {len(ps)} {fmts(ps)}").strip()
 
 
-NP_OF = {"f64": np.float64, "f32": np.float32, "u8": np.uint8, "u16": np.uint16, "i64": np.int64}
-TOK_OF_NP = {"float64": "f64", "float32": "f32", "uint8": "u8", "uint16": "u16", "int64": "i64", "bool": "bool"}
-INT_DTYPES = ("u8", "u16", "i64")
+NP_OF = {"f64": np.float64, "f32": np.float32, "f16": np.float16, "u8": np.uint8, "u16": np.uint16, "u32": np.uint32, "u64": np.uint64,
+         "i8": np.int8, "i16": np.int16, "i32": np.int32, "i64": np.int64}
+TOK_OF_NP = {"float64": "f64", "float32": "f32", "float16": "f16", "uint8": "u8", "uint16": "u16", "uint32": "u32", "uint64": "u64",
+             "int8": "i8", "int16": "i16", "int32": "i32", "int64": "i64", "bool": "bool"}
+INT_DTYPES = ("u8", "u16", "u32", "u64", "i8", "i16", "i32", "i64")
+ALL_DTYPES = ["f64", "f64", "f32", "f16", "u8", "u16", "u32", "u64", "i8", "i16", "i32", "i64"]
 
 
 def dtok(arr):
@@ -140,8 +143,14 @@ def gen_value(rng, dt):
         return Fraction(rng.choice([rng.randint(0, 255), rng.randint(0, 12), 201, 255]))
     if dt == "u16":
         return Fraction(rng.choice([rng.randint(0, 1000), rng.randint(0, 12), 65535]))
-    if dt == "i64":
+    if dt in ("u32", "u64"):
+        return Fraction(rng.choice([rng.randint(0, 1000), rng.randint(0, 12), 2**31 + 5 if dt == "u64" else 70000]))
+    if dt == "i8":
+        return Fraction(rng.randint(-128, 127))
+    if dt in ("i16", "i32", "i64"):
         return Fraction(rng.randint(-40, 300))
+    if dt == "f16":
+        return Fraction(rng.randint(-32, 32), 4)  # 11 mantissa bits
     return dy(rng, -32, 32, 16)
 
 
@@ -231,12 +240,12 @@ def gen_case(rng, malformed=False):
     labs = list(range(L)) + [rng.randrange(L) for _ in range(npx - L)]
     rng.shuffle(labs)
     label_values = sorted(rng.sample(range(0, 40), L))
-    dtype = rng.choice(["f64", "f64", "f32", "u8", "u16", "i64"])
+    dtype = rng.choice(ALL_DTYPES)
     pix = [(l, gen_value(rng, dtype)) for l in labs]
     mode = rng.choice(["comb", "comb", "comb", "single"])
     # float32 has 24 mantissa bits: at most two models in a row keep every intermediate value exact
-    models = gen_models(rng, 1 if mode == "single" else rng.randint(1, 2 if dtype == "f32" else 4), L)
-    if dtype == "f32":
+    models = gen_models(rng, 1 if mode == "single" or dtype == "f16" else rng.randint(1, 2 if dtype == "f32" else 4), L)
+    if dtype in ("f32", "f16"):
         models = f32_safe(rng, models)
     if not any(m[0] == "het" for m in models) and rng.random() < 0.6:
         # label-free models take signals of any dimensionality: 1-D pixel lists and 3-D arrays
@@ -299,8 +308,8 @@ def gen_thr(rng, d):
     labs = list(range(L)) + [rng.randrange(L) for _ in range(npx - L)]
     rng.shuffle(labs)
     label_values = sorted(rng.sample(range(0, 40), L))
-    sdt = rng.choice(["f64", "f64", "f32", "u8", "i64"])
-    vals = [dy(rng, -8, 24, 16) if sdt in ("f64", "f32") else Fraction(rng.randint(0, 3)) for _ in range(npx)]
+    sdt = rng.choice(ALL_DTYPES)
+    vals = [dy(rng, -8, 24, 16) if sdt in ("f64", "f32", "f16") else Fraction(rng.randint(0, 3)) for _ in range(npx)]
     mask = None if rng.random() < 0.4 else [rng.random() < 0.6 for _ in range(npx)]
     het = rng.random() < 0.6
     as_float = rng.random() < 0.4  # return_float may change the dtype, never the selection - with or without a mask
@@ -531,7 +540,12 @@ def oracle_models(ctx, d):
 
     def mk_case(models, upd, L, dtype="f64"):
         labs = [i % L for i in range(len(probe_vals))]
-        vals = probe_vals if dtype in ("f64", "f32") else [Fraction(v) for v in (list(range(0, 22)) + [100, 201, 255])]
+        if dtype in ("f64", "f32", "f16"):
+            vals = probe_vals
+        elif dtype == "i8":
+            vals = [Fraction(v) for v in range(-12, 13)]
+        else:
+            vals = [Fraction(v) for v in (list(range(0, 22)) + [100, 201, 255])]
         return Case("comb", models, upd, list(zip(labs, vals)), [5 * (i + 1) for i in range(L)], (5, 5), dtype)
 
     # (a) clip bounds / idempotence / Image in -> Image out, argument untouched
@@ -568,9 +582,9 @@ def oracle_models(ctx, d):
     for _ in range(ctx.pick(30, 300)):
         L = rng.randint(1, 5)
         models = gen_models(rng, rng.randint(1, 4), L, near_one=False)
-        cdt = rng.choice(["f64", "f64", "f32", "u8", "u16", "i64"])
-        if cdt == "f32":
-            models = f32_safe(rng, models[:2])  # exact in 24 mantissa bits
+        cdt = rng.choice(ALL_DTYPES)
+        if cdt in ("f32", "f16"):
+            models = f32_safe(rng, models[: 2 if cdt == "f32" else 1])  # exact in 24 / 11 mantissa bits
         c = mk_case(models, None, L, cdt)
         lab, sig = c.arrays()
         objs = [call(build, d, m, lab) for m in models]
@@ -597,8 +611,8 @@ def oracle_models(ctx, d):
                      {"line": c.line(), "observed": np.asarray(seq).ravel().tolist()[:8], "required": want.ravel().tolist()[:8]})
 
     # (e-dtype) label-wise linear model vs the real homogeneous LinearModel of each label, region by region, for every element type
-    for dt in ("u8", "u16", "i64", "f32", "f64"):
-        for _ in range(ctx.pick(4, 30)):
+    for dt in ("u8", "u16", "u32", "u64", "i8", "i16", "i32", "i64", "f16", "f32", "f64"):
+        for _ in range(ctx.pick(2, 20)):
             L = rng.randint(1, 4)
             sc, of = [Fraction(1) if rng.random() < 0.3 else dy(rng) for _ in range(L)], [dy(rng) for _ in range(L)]
             c = mk_case([("het", L, sc, of)], None, L, dt)
@@ -1151,7 +1165,9 @@ def wrapper_resize_boundary(ctx, d):
         labs = list(range(L)) + [rng.randrange(L) for _ in range(npx - L)]
         rng.shuffle(labs)
         label_values = sorted(rng.sample(range(0, 40), L))
-        wdt = rng.choice(["f64", "f32", "u8", "i64"])
+        wdt = rng.choice(ALL_DTYPES)
+        if wdt in ("f32", "f16"):
+            models = f32_safe(rng, models)  # the sub-models compute in the signal's float type: keep the products exact
         pix = [(l, gen_value(rng, wdt)) for l in labs]
         lines.append(f"wrap {L} " + " ".join(tok_model(m) for m in models) + f" | {npx} " + " ".join(f"{label_values[l]} {fmt(v)}" for l, v in pix))
         lab = np.array([label_values[l] for l in labs]).reshape(shape)
@@ -1576,8 +1592,8 @@ def combined_args_correspondence(ctx, d):
         rng.shuffle(labs)
         label_values = sorted(rng.sample(range(0, 40), L))
         lab = np.array([label_values[l] for l in labs]).reshape(shape)
-        dt = rng.choice(["f64", "f64", "f32", "u8"])
-        vals = [gen_value(rng, dt) if dt != "u8" else Fraction(rng.randint(0, 4)) for _ in range(npx)]
+        dt = rng.choice(["f64", "f64", "f32", "u8", "i16", "u32"])
+        vals = [gen_value(rng, dt) if dt in ("f64", "f32") else Fraction(rng.randint(0, 4)) for _ in range(npx)]
         sig = np.array([float(v) for v in vals]).reshape(shape).astype(NP_OF[dt])
         stages, objs = [], []
         n_st = rng.randint(1, 3)
